@@ -21,28 +21,28 @@
   OnBalanceVolume only implement `Next<&Bar>`, so their `x_reset_then_run` only has the bar clause.
 -/
 import TaRs.Lemmas.Machine
-import TaRs.Lemmas.SimpleMovingAverage
-import TaRs.Lemmas.ExponentialMovingAverage
-import TaRs.Lemmas.WeightedMovingAverage
-import TaRs.Lemmas.StandardDeviation
-import TaRs.Lemmas.MeanAbsoluteDeviation
-import TaRs.Lemmas.RelativeStrengthIndex
-import TaRs.Lemmas.Minimum
-import TaRs.Lemmas.Maximum
-import TaRs.Lemmas.FastStochastic
-import TaRs.Lemmas.SlowStochastic
-import TaRs.Lemmas.TrueRange
-import TaRs.Lemmas.AverageTrueRange
-import TaRs.Lemmas.MovingAverageConvergenceDivergence
-import TaRs.Lemmas.PercentagePriceOscillator
-import TaRs.Lemmas.CommodityChannelIndex
-import TaRs.Lemmas.EfficiencyRatio
-import TaRs.Lemmas.BollingerBands
-import TaRs.Lemmas.ChandelierExit
-import TaRs.Lemmas.KeltnerChannel
-import TaRs.Lemmas.RateOfChange
-import TaRs.Lemmas.MoneyFlowIndex
-import TaRs.Lemmas.OnBalanceVolume
+import TaRs.Lemmas.Core.SimpleMovingAverage
+import TaRs.Lemmas.Core.ExponentialMovingAverage
+import TaRs.Lemmas.Core.WeightedMovingAverage
+import TaRs.Lemmas.Core.StandardDeviation
+import TaRs.Lemmas.Core.MeanAbsoluteDeviation
+import TaRs.Lemmas.Core.RelativeStrengthIndex
+import TaRs.Lemmas.Core.Minimum
+import TaRs.Lemmas.Core.Maximum
+import TaRs.Lemmas.Core.FastStochastic
+import TaRs.Lemmas.Core.SlowStochastic
+import TaRs.Lemmas.Core.TrueRange
+import TaRs.Lemmas.Core.AverageTrueRange
+import TaRs.Lemmas.Core.MovingAverageConvergenceDivergence
+import TaRs.Lemmas.Core.PercentagePriceOscillator
+import TaRs.Lemmas.Core.CommodityChannelIndex
+import TaRs.Lemmas.Core.EfficiencyRatio
+import TaRs.Lemmas.Core.BollingerBands
+import TaRs.Lemmas.Core.ChandelierExit
+import TaRs.Lemmas.Core.KeltnerChannel
+import TaRs.Lemmas.Core.RateOfChange
+import TaRs.Lemmas.Core.MoneyFlowIndex
+import TaRs.Lemmas.Core.OnBalanceVolume
 import TaRs.Lemmas.Reset.SlowStochastic
 import TaRs.Lemmas.Reset.RateOfChange
 import TaRs.Lemmas.Reset.RelativeStrengthIndex
